@@ -22,7 +22,7 @@ RULE = ("each case = one config (interface-like stanzas, depth <= 4, values plac
         "default (str/int/float/None/bool) typed or untyped.  The harness supplies per line the group text re.search yields and per text the value "
         "result_type(text) yields (or that it raises); the Gallina model is run on the dumped forest and compared with the value returned "
         "(type name + printed form) or 'raised'.  non-trivial = the answer comes from a line other than the queried one, or is the default "
-        "with at least one child present, distinct by (API, type, recurse, untyped, where the first match sits, answer kind).")
+        "with at least one child present, distinct by (API, type, recurse, untyped, where the first match sits, answer kind). In 15% of the non-root cases the queried line object is edited in place (obj.text = the words of another line, same column) after the parse and before the call: extraction must read the current text.")
 EXHAUSTIVE = {"quick": False, "thorough": False}
 TRUSTED = [
     "Coq 8.16.1 kernel incl. vm_compute",
@@ -87,6 +87,9 @@ def gen(rng, tier, escalate):
             q = _query(rng, len(cfg))
             if heads and rng.random() < 0.6:
                 q["line"] = rng.choice(heads)               # ask the stanza head: the family is non-trivial
+            if rng.random() < 0.15 and q["k"] != "root":
+                # the queried line object was edited in place (obj.text = ...) after the parse: extraction reads its CURRENT text
+                q["edit"] = rng.randrange(len(cfg))
             cases.append({"cfg": cfg, "ibl": ibl, "q": q})
     # placed matches: the value at self / child / grandchild / nowhere / several places
     base = ["interface Eth1", " description a", " service-policy x", "  class y", "   police 5", " description b"]
@@ -132,6 +135,12 @@ def _conv(rt, x):
 def run(case):
     q = case["q"]
     p = S.parse(case)
+    n0 = len(p.objs)
+    if q.get("edit") is not None and n0 > 0:
+        src = p.objs[q["edit"] % n0].text
+        tgt = p.objs[q["line"] % n0]
+        if not tgt.is_comment and src.strip() and not src.lstrip().startswith("!"):
+            tgt.text = " " * tgt.indent + src.lstrip()          # same column, another line's words
     f = S.dump_forest(p)
     n = len(f["par"])
     line = q["line"] % max(n, 1)
@@ -256,7 +265,7 @@ def nontrivial(c, o):
 
 
 def describe(c, o):
-    return {"config": c["cfg"], "ignore_blank_lines": c.get("ibl", True), "query": c["q"], "line_queried": o["line"], "impl_returned": o["out"],
+    return {"config": c["cfg"], "ignore_blank_lines": c.get("ibl", True), "query": c["q"], "line_queried": o["line"], "queried_line_edited_to_words_of_line": c["q"].get("edit"), "impl_returned": o["out"],
             "group_text_per_line": o["mg"]}
 
 
